@@ -39,3 +39,22 @@ Definition f_div (a b : N) : N := bits_of_sf (SFdiv prec emax (sf_of_bits a) (sf
 Definition f_eqb (a b : N) : bool := SFeqb (sf_of_bits a) (sf_of_bits b).
 Definition f_ltb (a b : N) : bool := SFltb (sf_of_bits a) (sf_of_bits b).
 Definition f_leb (a b : N) : bool := SFleb (sf_of_bits a) (sf_of_bits b).
+
+(* Rust's `%` on f64 = C fmod: x - trunc(x / y) * y, computed exactly; the result carries the sign of x *)
+Definition f_rem (a b : N) : N :=
+  let x := sf_of_bits a in
+  let y := sf_of_bits b in
+  match x, y with
+  | S754_nan, _ | _, S754_nan => NAN_BITS
+  | S754_infinity _, _ => NAN_BITS
+  | _, S754_zero _ => NAN_BITS
+  | S754_zero _, _ => bits_of_sf x
+  | S754_finite _ _ _, S754_infinity _ => bits_of_sf x
+  | S754_finite sx mx ex, S754_finite _ my ey =>
+      let e := Z.min ex ey in
+      let X := Zpos mx * 2 ^ (ex - e) in
+      let Y := Zpos my * 2 ^ (ey - e) in
+      let r := Z.rem X Y in
+      if r =? 0 then bits_of_sf (S754_zero sx)
+      else bits_of_sf (binary_normalize prec emax (if sx then - r else r) e sx)
+  end.
